@@ -69,8 +69,8 @@ def build(schema):
     reg = sqlo.uniq('c13reg')
     conn = sqlo.mem_conn()
     classes = schema['classes']
-    dicts = [{'sqlmeta': type('sqlmeta', (), {'registry': reg}), '_connection': conn,
-              'x': IntCol(default=None), 'y': IntCol(default=None)} for _ in classes]
+    dicts = [{'sqlmeta': type('sqlmeta', (), {'registry': reg, 'lazyUpdate': bool(cd.get('lazy'))}), '_connection': conn,
+              'x': IntCol(default=None), 'y': IntCol(default=None)} for cd in classes]
     for k, cd in enumerate(classes):
         for f, (t, p) in enumerate(cd['fks']):
             dicts[k]['f%d' % f] = ForeignKey(NAMES[t], cascade=POL[p], default=None)
@@ -130,6 +130,9 @@ def schema_line(schema):
 def gen_schema(rng):
     n = rng.choice([2, 2, 3])
     classes = [{'fks': []} for _ in range(n)]
+    for cd in classes:
+        if rng.random() < 0.35:
+            cd['lazy'] = True       # sqlmeta.lazyUpdate: assignments are pending until syncUpdate()
     accessors = []
     for k in range(n):
         for f in range(rng.choice([0, 1, 1, 2])):
@@ -172,7 +175,13 @@ def gen_history(rng, schema, length):
             xv = rng.choice([None, 1, 1, 2, 2, 3])
             yv = rng.choice([None, 1, 2, 2, 3])
             ops.append(['new', k, i, xv, yv])
-        elif r < 0.45:
+        elif r < 0.26:
+            k = rng.choice([k for k in range(n) if live[k]])
+            ops.append(['attr', k, rng.choice(live[k]), rng.randrange(2), rng.choice([None, 1, 2, 2, 3])])
+        elif r < 0.31:
+            k = rng.choice([k for k in range(n) if live[k]])
+            ops.append(['sync', k, rng.choice(live[k])])
+        elif r < 0.50:
             cands = [(k, f) for k in range(n) for f in range(len(schema['classes'][k]['fks'])) if live[k]]
             if not cands:
                 continue
@@ -215,6 +224,18 @@ class Runner:
             self.conn.query('DELETE FROM %s' % t)
         self.conn.cache.clear()
         self.accs = {a['name']: a for a in schema['accessors']}
+        self.held = {}        # instances stay referenced: a pending assignment lives in the instance
+        self.pending = {}     # (cls, id) -> model lines of assignments not yet written (lazyUpdate classes)
+        self.shown = {}       # (cls, id) -> {attr index: value the instance must show while it is pending}
+
+    def lazy(self, k):
+        return bool(self.schema['classes'][k].get('lazy'))
+
+    def flush(self, key):
+        """syncUpdate(): the pending assignments reach the table (and the model)"""
+        self.held[key].syncUpdate()
+        self.shown.pop(key, None)
+        return self.pending.pop(key, [])
 
     def live(self):
         out = []
@@ -230,7 +251,7 @@ class Runner:
         try:
             if op[0] == 'new':
                 _, k, i, xv, yv = op
-                self.classes[k](id=i, x=xv, y=yv)
+                self.held[(k, i)] = self.classes[k](id=i, x=xv, y=yv)
                 nf = len(self.schema['classes'][k]['fks'])
                 return 'new %d %d %d %s %s' % (k, i, nf, '-' if xv is None else xv, '-' if yv is None else yv), 'ok'
             if op[0] == 'set':
@@ -238,8 +259,28 @@ class Runner:
                 t = self.schema['classes'][k]['fks'][f][0]
                 if (k, i) not in live or (v is not None and (t, v) not in live):
                     return None, None
-                setattr(self.classes[k].get(i), 'f%dID' % f, v)
-                return 'set %d %d %d %s' % (k, i, f, '-' if v is None else v), 'ok'
+                setattr(self.held[(k, i)], 'f%dID' % f, v)
+                line = 'set %d %d %d %s' % (k, i, f, '-' if v is None else v)
+                if self.lazy(k):
+                    self.pending.setdefault((k, i), []).append(line)
+                    self.shown.setdefault((k, i), {})['f%d' % f] = v
+                    return [], 'ok'
+                return line, 'ok'
+            if op[0] == 'attr':
+                _, k, i, a, v = op
+                if (k, i) not in live:
+                    return None, None
+                setattr(self.held[(k, i)], 'xy'[a], v)
+                if self.lazy(k):
+                    self.pending.setdefault((k, i), [])
+                    self.shown.setdefault((k, i), {})[a] = v
+                # the model's attribute is what the instance shows (list-flavoured joins sort in Python)
+                return 'attr %d %d %d %s' % (k, i, a, '-' if v is None else v), 'ok'
+            if op[0] == 'sync':
+                _, k, i = op
+                if (k, i) not in live or not self.lazy(k):
+                    return None, None
+                return self.flush((k, i)), 'ok'
             if op[0] in ('add', 'rem'):
                 _, name, a, b, via_q = op
                 acc = self.accs[name]
@@ -258,6 +299,9 @@ class Runner:
                 _, k, i = op
                 if (k, i) not in live:
                     return None, None
+                pre = []
+                for key in sorted(self.pending):      # destroySelf may write pending values of other rows: settle them first
+                    pre += self.flush(key)
                 try:
                     self.classes[k].get(i).destroySelf()
                     out = 'ok'
@@ -265,7 +309,7 @@ class Runner:
                     out = 'refused'
                 except RecursionError:
                     out = 'fuel'
-                return 'del %d %d' % (k, i), out
+                return pre + ['del %d %d' % (k, i)], out
         except Exception as e:  # an exception of the real code is an observable outcome
             return 'bad', 'error:' + sqlo.exc_name(e)
         return None, None
@@ -273,6 +317,14 @@ class Runner:
     # -- accessors: (model query line, impl answer, oracle data)
     def attr(self, k, i):
         return self.conn.queryOne('SELECT x, y FROM %s WHERE id = %d' % (self.classes[k].sqlmeta.table, i))
+
+    def visible(self, k, i):
+        """what the instance has to show: the row, overlaid with its pending assignments"""
+        vals = list(self.attr(k, i))
+        for a, v in self.shown.get((k, i), {}).items():
+            if isinstance(a, int):
+                vals[a] = v
+        return vals
 
     def observe(self, ctx, case):
         """all accessors of all live objects: returns [(model line, kind, impl ids)], runs the oracle"""
@@ -302,6 +354,15 @@ class Runner:
                     if (one is None) != (not raw) or (one is not None and one not in raw):
                         ctx.oracle_fail('C13:single-join', 'SingleJoin of %s %d gives %r, referencing rows %r' % (NAMES[k], i, one, raw), case)
                     mline = 'm %d %d %d%s' % (other, acc['f'], i, key_line(acc['order']))
+                    for j in lst:
+                        want = self.shown.get((other, j), {}).get('f%d' % acc['f'], i)
+                        try:
+                            shows = getattr(self.classes[other].get(j), 'f%dID' % acc['f'])
+                        except Exception as e:
+                            shows = 'error:' + sqlo.exc_name(e)
+                        if shows != want:
+                            ctx.oracle_fail('C13:accessor-member-shows-other-owner', '%s %d is returned by %s of %s %d (its row references it) but the '
+                                            'instance shows owner %r (it has to show %r)' % (NAMES[other], j, acc['name'], NAMES[k], i, shows, want), case)
                 else:
                     other = acc['other']
                     tbl, jc, oc = self.info[acc['name']]
@@ -341,9 +402,9 @@ class Runner:
                                                 % (NAMES[k], i, NAMES[k2], j, n1, n2), case)
         return out
 
-    def sort_key(self, other, keys):
+    def sort_key(self, other, keys, visible=False):
         def kf(i):
-            vals = self.attr(other, i)
+            vals = self.visible(other, i) if visible else self.attr(other, i)
             out = []
             for key in keys:
                 v = vals[int(key[1:])]
@@ -361,14 +422,16 @@ class Runner:
             ctx.oracle_fail('C13:query-accessor-vs-relation', '%s (query flavour) returns %r, the stored relation holds %r' % (what, qry, raw), case)
         if acc['order']:
             kf = self.sort_key(other, acc['order'])
-            kl = [kf(i) for i in lst]
+            kfl = self.sort_key(other, acc['order'], visible=True)   # the list flavour sorts by what the instances show
+            kl = [kfl(i) for i in lst]
             kq = [kf(i) for i in qry]
+            pend = any((other, i) in self.shown for i in lst)
             if kl != sorted(kl):
-                key = K_DOSORT if len(acc['order']) > 1 else 'C13:list-accessor-unsorted'
+                key = 'C13:list-accessor-order-vs-shown-values' if pend else (K_DOSORT if len(acc['order']) > 1 else 'C13:list-accessor-unsorted')
                 ctx.oracle_fail(key, '%s with orderBy %r returns keys %r: not in the declared order' % (what, py_order(acc['order']), kl), case)
             if kq != sorted(kq):
                 ctx.oracle_fail('C13:query-accessor-unsorted', '%s (query flavour) with orderBy %r returns keys %r' % (what, py_order(acc['order']), kq), case)
-            elif kl == sorted(kl) and kl != kq:
+            elif kl == sorted(kl) and kl != kq and not pend:
                 ctx.oracle_fail('C13:list-query-disagree', '%s: list flavour %r, query flavour %r' % (what, lst, qry), case)
         elif acc['kind'] == 'fk' and lst != qry:
             ctx.oracle_fail('C13:list-query-disagree', '%s: list flavour %r, query flavour %r' % (what, lst, qry), case)
@@ -397,8 +460,10 @@ def run_history(ctx, schema, ops):
         if mline == 'bad':
             ctx.oracle_fail('C13:op-raises:%s' % outcome, 'operation %r raised %s' % (op, outcome), case)
             break
-        lines.append(mline)
-        expect.append(('op outcome: model = real', outcome, case))
+        mlines = mline if isinstance(mline, list) else [mline]
+        for n, ml in enumerate(mlines):
+            lines.append(ml)
+            expect.append(('op outcome: model = real', outcome if n == len(mlines) - 1 else 'ok', case))
         obs = r.observe(ctx, case)
         nonempty = any(impl not in ('ids', 'none') for _, _, impl in obs)
         ctx.case((json.dumps(schema), json.dumps(done)), nontrivial=nonempty,
